@@ -4,6 +4,7 @@
 package w13
 
 import (
+	"encoding/json"
 	"fmt"
 	"os"
 	"path/filepath"
@@ -59,123 +60,166 @@ func allPerms(n int) [][]int {
 	return out
 }
 
-// Revisions: sets of module headers, every load order.
-func Revisions(j *job.Job, s *job.Sink) {
+// genHeaders draws one set of module headers and an importer.
+func genHeaders(seed, c int64) ([]hdr, hdr, string) {
 	dates := []string{"2019-05-05", "2020-01-01", "2020-12-31", "2021-06-01"}
-	for c := j.Start; c < j.Start+j.Count; c++ {
-		r := prng.For(j.Seed, "C13", "revisions", c)
-		n := 2 + r.Intn(3)
-		var hs []hdr
-		seen := map[string]bool{}
-		for i := 0; i < n; i++ {
-			h := hdr{Name: []string{"a", "a", "a", "b"}[r.Intn(4)], ID: i}
-			for q := r.Intn(3); q > 0; q-- {
-				h.Revs = append(h.Revs, dates[r.Intn(len(dates))])
-			}
-			k := h.Name + "@" + h.latest()
-			if seen[k] {
-				continue // the same (name, revision) twice is rejected by design, first one wins
-			}
-			seen[k] = true
-			hs = append(hs, h)
+	r := prng.For(seed, "C13", "revisions", c)
+	n := 2 + r.Intn(3)
+	var hs []hdr
+	seen := map[string]bool{}
+	for i := 0; i < n; i++ {
+		h := hdr{Name: []string{"a", "a", "a", "b"}[r.Intn(4)], ID: i}
+		for q := r.Intn(3); q > 0; q-- {
+			h.Revs = append(h.Revs, dates[r.Intn(len(dates))])
 		}
-		if len(hs) < 2 {
+		k := h.Name + "@" + h.latest()
+		if seen[k] {
+			continue // the same (name, revision) twice is rejected by design, first one wins
+		}
+		seen[k] = true
+		hs = append(hs, h)
+	}
+	if len(hs) < 2 {
+		return nil, hdr{}, ""
+	}
+	// an importer that names a revision and one that does not
+	imp := hs[r.Intn(len(hs))]
+	importer := fmt.Sprintf("module u { namespace \"urn:u\"; prefix u; import %s { prefix x; } }", imp.Name)
+	if imp.latest() != "" && r.Intn(2) == 0 {
+		importer = fmt.Sprintf("module u { namespace \"urn:u\"; prefix u; import %s { prefix x; revision-date %s; } }", imp.Name, imp.latest())
+	}
+	return hs, imp, importer
+}
+
+// Revisions: sets of module headers, every load order. Witnesses of open known
+// findings (params["witnesses"], a JSON list of header sets) run first, with
+// negative case numbers.
+func Revisions(j *job.Job, s *job.Sink) {
+	var wit [][]hdr
+	if w := j.Params["witnesses"]; w != "" {
+		json.Unmarshal([]byte(w), &wit)
+	}
+	for i, hs := range wit {
+		checkHeaders(j, s, int64(-1-i), hs, hs[0], fmt.Sprintf("module u { namespace \"urn:u\"; prefix u; import %s { prefix x; } }", hs[0].Name))
+	}
+	for c := j.Start; c < j.Start+j.Count; c++ {
+		hs, imp, importer := genHeaders(j.Seed, c)
+		if hs == nil {
 			continue
 		}
-		// an importer that names a revision and one that does not
-		imp := hs[r.Intn(len(hs))]
-		importer := fmt.Sprintf("module u { namespace \"urn:u\"; prefix u; import %s { prefix x; } }", imp.Name)
-		if imp.latest() != "" && r.Intn(2) == 0 {
-			importer = fmt.Sprintf("module u { namespace \"urn:u\"; prefix u; import %s { prefix x; revision-date %s; } }", imp.Name, imp.latest())
-		}
-		s.Current(c, hs)
-		s.Count("header_sets", 1)
-		unrev := false
-		for _, h := range hs {
-			if h.latest() == "" {
-				unrev = true
-			}
-		}
-		s.Count("nontrivial", 1)
-		outcomes := map[string]bool{}
-		reported := map[string]bool{}
-		bad := func(class, detail string) {
-			if reported[class] {
-				return
-			}
-			reported[class] = true
-			s.Violation(c, j.CaseID(c), "C13.revisions", class, detail, map[string]any{"headers": hs, "importer": importer}, map[string]any{"has_unrevisioned_module": unrev})
-		}
-		best := map[string]hdr{}
-		for _, h := range hs {
-			if b, ok := best[h.Name]; !ok || h.latest() > b.latest() {
-				best[h.Name] = h
-			}
-		}
-		for _, p := range allPerms(len(hs)) {
-			s.Count("load_orders", 1)
-			ms := yang.NewModules()
-			var rej []string
-			for _, i := range p {
-				if err := ms.Parse(hs[i].text(), fmt.Sprintf("f%d.yang", i)); err != nil {
-					rej = append(rej, fmt.Sprint(hs[i].ID))
-				}
-			}
-			sort.Strings(rej)
-			var keys []string
-			for k, m := range ms.Modules {
-				keys = append(keys, k+"="+m.Leaf[0].Name)
-			}
-			sort.Strings(keys)
-			o := "rejected=[" + strings.Join(rej, ",") + "] table=" + strings.Join(keys, " ")
-			outcomes[o] = true
-			if len(rej) > 0 {
-				bad("distinct-revision-rejected", fmt.Sprintf("load order %v: %s", p, o))
-				continue
-			}
-			for _, h := range hs {
-				full := h.Name
-				if h.latest() != "" {
-					full += "@" + h.latest()
-				}
-				// an unrevisioned module can only be reached through the bare name
-				if h.latest() == "" && best[h.Name].ID != h.ID {
-					continue
-				}
-				if m := ms.Modules[full]; m == nil || m.Leaf[0].Name != fmt.Sprintf("mark%d", h.ID) {
-					bad("full-name-wrong", fmt.Sprintf("load order %v: %s does not hold module %d: %s", p, full, h.ID, o))
-				}
-			}
-			for nme, h := range best {
-				if m := ms.Modules[nme]; m == nil || m.Leaf[0].Name != fmt.Sprintf("mark%d", h.ID) {
-					bad("bare-name-not-latest", fmt.Sprintf("load order %v: %s", p, o))
-				}
-			}
-			// import resolution
-			if err := ms.Parse(importer, "u.yang"); err == nil {
-				if errs := ms.Process(); len(errs) == 0 {
-					got := ms.Modules["u"].Import[0].Module
-					want := best[imp.Name]
-					if strings.Contains(importer, "revision-date") {
-						want = imp
-					}
-					if got == nil || got.Leaf[0].Name != fmt.Sprintf("mark%d", want.ID) {
-						bad("import-binds-wrong-revision", fmt.Sprintf("load order %v: %s", p, importer))
-					}
-				}
-			}
-		}
-		if len(outcomes) > 1 {
-			var os []string
-			for o := range outcomes {
-				os = append(os, o)
-			}
-			sort.Strings(os)
-			bad("load-order-dependent", strings.Join(os, " | "))
-		}
+		checkHeaders(j, s, c, hs, imp, importer)
 		if c%500 == 0 {
 			s.Sample(1, hs)
 		}
+	}
+}
+
+func checkHeaders(j *job.Job, s *job.Sink, c int64, hs []hdr, imp hdr, importer string) {
+	s.Current(c, hs)
+	s.Count("header_sets", 1)
+	s.Count("nontrivial", 1)
+	outcomes := map[string]bool{} // what happened, per load order
+	residual := map[string]bool{} // the same with the rejections explained below left out
+	reported := map[string]bool{}
+	bad := func(class, detail string, facts map[string]any) {
+		if reported[class] {
+			return
+		}
+		reported[class] = true
+		s.Violation(c, j.CaseID(c), "C13.revisions", class, detail, map[string]any{"headers": hs, "importer": importer}, facts)
+	}
+	best := map[string]hdr{}
+	for _, h := range hs {
+		if b, ok := best[h.Name]; !ok || h.latest() > b.latest() {
+			best[h.Name] = h
+		}
+	}
+	for _, p := range allPerms(len(hs)) {
+		s.Count("load_orders", 1)
+		ms := yang.NewModules()
+		var rej, rejOther []string
+		revisionedLoaded := map[string]bool{} // names of which a revisioned module has been offered
+		for _, i := range p {
+			err := ms.Parse(hs[i].text(), fmt.Sprintf("f%d.yang", i))
+			if err != nil {
+				rej = append(rej, fmt.Sprint(hs[i].ID))
+				// One shape of rejection is a recorded finding: a module without
+				// any revision that arrives after a revisioned module of the same
+				// name. Everything else is reported under its own class.
+				if hs[i].latest() == "" && revisionedLoaded[hs[i].Name] && strings.Contains(err.Error(), "duplicate module") {
+					s.Count("unrevisioned_after_revisioned_rejections", 1)
+				} else {
+					rejOther = append(rejOther, fmt.Sprint(hs[i].ID))
+				}
+			}
+			if hs[i].latest() != "" {
+				revisionedLoaded[hs[i].Name] = true
+			}
+		}
+		sort.Strings(rej)
+		sort.Strings(rejOther)
+		var keys []string
+		for k, m := range ms.Modules {
+			keys = append(keys, k+"="+m.Leaf[0].Name)
+		}
+		sort.Strings(keys)
+		o := "rejected=[" + strings.Join(rej, ",") + "] table=" + strings.Join(keys, " ")
+		outcomes[o] = true
+		residual["rejected=["+strings.Join(rejOther, ",")+"] table="+strings.Join(keys, " ")] = true
+		if len(rejOther) > 0 {
+			bad("distinct-revision-rejected", fmt.Sprintf("load order %v: %s", p, o), nil)
+			continue
+		}
+		if len(rej) > 0 {
+			bad("unrevisioned-rejected-after-revisioned", fmt.Sprintf("load order %v: %s", p, o), nil)
+		}
+		for _, h := range hs {
+			full := h.Name
+			if h.latest() != "" {
+				full += "@" + h.latest()
+			}
+			// an unrevisioned module can only be reached through the bare name
+			if h.latest() == "" && best[h.Name].ID != h.ID {
+				continue
+			}
+			if m := ms.Modules[full]; m == nil || m.Leaf[0].Name != fmt.Sprintf("mark%d", h.ID) {
+				bad("full-name-wrong", fmt.Sprintf("load order %v: %s does not hold module %d: %s", p, full, h.ID, o), nil)
+			}
+		}
+		for nme, h := range best {
+			if m := ms.Modules[nme]; m == nil || m.Leaf[0].Name != fmt.Sprintf("mark%d", h.ID) {
+				bad("bare-name-not-latest", fmt.Sprintf("load order %v: %s", p, o), nil)
+			}
+		}
+		// import resolution
+		if err := ms.Parse(importer, "u.yang"); err == nil {
+			if errs := ms.Process(); len(errs) == 0 {
+				s.Count("imports_checked", 1)
+				got := ms.Modules["u"].Import[0].Module
+				want := best[imp.Name]
+				if strings.Contains(importer, "revision-date") {
+					want = imp
+				}
+				if got == nil || got.Leaf[0].Name != fmt.Sprintf("mark%d", want.ID) {
+					bad("import-binds-wrong-revision", fmt.Sprintf("load order %v: %s", p, importer), nil)
+				}
+			}
+		}
+	}
+	join := func(m map[string]bool) string {
+		var os []string
+		for o := range m {
+			os = append(os, o)
+		}
+		sort.Strings(os)
+		return strings.Join(os, " | ")
+	}
+	switch {
+	case len(residual) > 1:
+		bad("load-order-dependent", join(outcomes), nil)
+	case len(outcomes) > 1:
+		// the orders differ only in the recorded shape of rejection
+		bad("load-order-dependent-by-unrevisioned-rejection", join(outcomes), nil)
 	}
 }
 
